@@ -257,7 +257,9 @@ impl ParquetTable {
                 let ndv_est = if acc.has_int_stats {
                     match (acc.min_i64, acc.max_i64) {
                         (Some(min), Some(max)) if max >= min => {
-                            Some(non_null.min((max - min) as u64 + 1))
+                            // i128: max - min + 1 does not fit i64/u64 for wide ranges
+                            let range = (max as i128 - min as i128 + 1).min(u64::MAX as i128) as u64;
+                            Some(non_null.min(range))
                         }
                         _ => None,
                     }
